@@ -4,7 +4,7 @@
 //!     <id> k=f32|f16|f48|u8 R=<rows> mi=<max_index> t=<threshold> m=<row/row/...>
 //!     <id> k=e2e pssm=<row/row/...> seq=<ACTGN...>
 //! (f32 cells and thresholds as decimal u32 bit patterns, u8 as decimal, cells of a row
-//! separated by `,`, `m=-` for a matrix without rows; `f16` / `f48` are f32 with 16 / 48 columns).
+//! separated by `,`, `m=-` for a matrix without rows, `m=@v p=r:c:v;...` a constant matrix with planted cells; `f16` / `f48` are f32 with 16 / 48 columns).
 //! `maxi corpus` prints the boundary corpus (same format).
 //! `maxi run` appends ` => key=value ...` with, for every entry point,
 //!     <p>.max  N | <value>        <p>.am  N | <row>:<col> (or an offset)      <p>.th  - | r:c,r:c,...
@@ -74,6 +74,25 @@ fn parse_matrix(s: &str) -> Vec<Vec<u32>> {
     s.split('/')
         .map(|r| r.split(',').map(|x| x.parse().unwrap()).collect())
         .collect()
+}
+
+/// `m=@<v>` (with `R=<rows>` and the column count of the kind) is a constant matrix; `p=r:c:v;...`
+/// then overrides single cells (compact form of the very tall corpus matrices).
+fn parse_matrix_fields(f: &std::collections::HashMap<String, String>, cols: usize) -> Vec<Vec<u32>> {
+    let ms = &f["m"];
+    let mut m = if let Some(v) = ms.strip_prefix('@') {
+        let rows: usize = f["R"].parse().unwrap();
+        vec![vec![v.parse().unwrap(); cols]; rows]
+    } else {
+        parse_matrix(ms)
+    };
+    if let Some(ps) = f.get("p") {
+        for cell in ps.split(';').filter(|x| !x.is_empty()) {
+            let t: Vec<usize> = cell.split(':').map(|x| x.parse().unwrap()).collect();
+            m[t[0]][t[1]] = t[2] as u32;
+        }
+    }
+    m
 }
 
 fn show_matrix(m: &[Vec<u32>]) -> String {
@@ -709,6 +728,22 @@ fn corpus() -> Vec<String> {
         m[290][13] = fbits(-1.0);
         push(format!("k=f16 R=300 mi=4800 t={} m={}", fbits(-1.0), show_matrix(&m)), &mut out);
     }
+    // u8 matrices with more than 32768 rows (the row index of argmax_u8_avx2 is a 16-bit lane:
+    // indices >= 32768 are negative as i16), the largest supported size 65536 and the guard
+    // case 65537 (explicit panic of the AVX2 arm); compact form `m=@fill p=row:col:value;...`
+    for &(rows, ref cells) in &[
+        (32769usize, vec![(32768usize, 0usize)]),
+        (33000, vec![(32900, 9)]),
+        (40000, vec![(39999, 17)]),
+        (40000, vec![(32768, 31)]),
+        (36000, vec![(100, 20), (35000, 20)]),
+        (36000, vec![(5, 3), (34000, 28)]),
+        (65536, vec![(65535, 24)]),
+        (65537, vec![(65536, 2)]),
+    ] {
+        let p: Vec<String> = cells.iter().map(|(r, c)| format!("{}:{}:200", r, c)).collect();
+        push(format!("k=u8 R={} mi={} t=200 m=@3 p={}", rows, rows * 32, p.join(";")), &mut out);
+    }
     // no rows
     push("k=f32 R=0 mi=0 t=0 m=-".to_string(), &mut out);
     push("k=f16 R=0 mi=0 t=0 m=-".to_string(), &mut out);
@@ -755,7 +790,12 @@ fn main() {
                 let obs = match f["k"].as_str() {
                     "e2e" => run_e2e(&parse_matrix(&f["pssm"]), if f["seq"] == "-" { "" } else { &f["seq"] }),
                     k => {
-                        let m = parse_matrix(&f["m"]);
+                        let cols = match k {
+                            "f16" => 16,
+                            "f48" => 48,
+                            _ => 32,
+                        };
+                        let m = parse_matrix_fields(&f, cols);
                         let mi: usize = f["mi"].parse().unwrap();
                         let t: u32 = f["t"].parse().unwrap();
                         match k {
